@@ -30,7 +30,7 @@ def sha(path):
         return hashlib.sha256(f.read()).hexdigest()
 
 
-LAYOUTS = [(i, k) for i in ("none", "shared", "list") for k in ("none", "shared", "list", "samedict")]
+LAYOUTS = [(i, k) for i in ("none", "shared", "list") for k in ("none", "shared", "list", "samedict")] + ["shared-mass", "shared-mass"]
 
 
 def make_config(rnd, n, pre_run, layout=None):
@@ -43,13 +43,28 @@ def make_config(rnd, n, pre_run, layout=None):
     init_mode = rnd.choice(["none", "shared", "list"])
     inits = [[rnd.uniform(-1, 1) for _ in range(d)] for _ in range(n)]
     kw_mode = rnd.choice(["none", "shared", "list", "samedict"])
-    if layout is not None:
+    if layout is not None and layout != "shared-mass":
         init_mode, kw_mode = layout
+    shared_mass = False
+    if layout == "shared-mass":
+        # every chain is an HMC chain and gets the very same mass-matrix object through a shared kwargs dict; the object was used in a pilot run before
+        init_mode, kw_mode, shared_mass = rnd.choice(["none", "list"]), "shared", True
+        kinds = ["HMC"] * n
     steps = [rnd.choice([0.2, 0.5, 1.0]) for _ in range(n)]
     thin = rnd.choice([1, 1, 2])
     P = rnd.choice([4, 6, 10])
     return {"n": n, "kinds": kinds, "seeds": seeds, "d": d, "mus": mus, "temps": temps, "init_mode": init_mode, "inits": inits,
-            "kw_mode": kw_mode, "steps": steps, "P": P, "thin": thin if P % thin == 0 else 1, "pre_run": pre_run, "controller_seed": rnd.randrange(1 << 30)}
+            "kw_mode": kw_mode, "shared_mass": shared_mass, "steps": steps, "P": P, "thin": thin if P % thin == 0 else 1, "pre_run": pre_run, "controller_seed": rnd.randrange(1 << 30)}
+
+
+def make_shared_mass(cfg):
+    """a Diagonal mass matrix that has already been used by a pilot sampler (other seed)"""
+    S, D, MM = _hm()
+    mass = MM.Diagonal(np.linspace(0.5, 2.0, cfg["d"]).reshape(-1, 1))
+    with quiet(), np.errstate(all="ignore"), scratch() as t:
+        S.HMC(seed=cfg["controller_seed"] + 5).sample(os.path.join(t, "pilot.h5"), D.Normal(np.zeros((cfg["d"], 1)), 1.0), proposals=3, mass_matrix=mass,
+                                                       overwrite_existing_file=True, disable_progressbar=True)
+    return mass
 
 
 def kwargs_of(cfg, i, kind):
@@ -116,6 +131,8 @@ def job(cfg, tmp):
         kw = None
     elif cfg["kw_mode"] == "shared":
         kw = kwargs_of(cfg, 0, "RWMH")
+        if cfg.get("shared_mass"):
+            kw["mass_matrix"] = make_shared_mass(cfg)
     elif cfg["kw_mode"] == "samedict":
         kw = [kwargs_of(cfg, 0, "RWMH")] * n          # a list that repeats one dictionary object
     else:
@@ -132,8 +149,9 @@ def job(cfg, tmp):
     for i, (s, p) in enumerate(zip(samplers, posts)):
         fn = os.path.join(tmp, f"reuse_{i}.h5")
         try:
+            extra = {"mass_matrix": kw["mass_matrix"]} if cfg.get("shared_mass") else {}
             s.sample(fn, p, initial_model=init_of(cfg, i), proposals=cfg["P"], overwrite_existing_file=True,
-                     **{**{"disable_progressbar": True}, **kwargs_of(cfg, i, cfg["kinds"][i])})
+                     **{**{"disable_progressbar": True}, **kwargs_of(cfg, i, cfg["kinds"][i]), **extra})
             reuse.append(read_samples(fn))
         except Exception as e:
             reuse.append(repr(e))
@@ -145,6 +163,7 @@ def reference(cfg, tmp):
     S, D, MM = _hm()
     samplers, posts = build(cfg)
     out = []
+    extra = {"mass_matrix": make_shared_mass(cfg)} if cfg.get("shared_mass") else {}
     for i, (s, p) in enumerate(zip(samplers, posts)):
         with quiet(), np.errstate(all="ignore"):
             if cfg["pre_run"]:
@@ -153,7 +172,7 @@ def reference(cfg, tmp):
             s2 = copy.deepcopy(s)
             fn = os.path.join(tmp, f"ref_{i}.h5")
             s2.sample(fn, p, initial_model=init_of(cfg, i), proposals=cfg["P"], overwrite_existing_file=True,
-                      **{**{"disable_progressbar": True}, **kwargs_of(cfg, i, cfg["kinds"][i])})
+                      **{**{"disable_progressbar": True}, **kwargs_of(cfg, i, cfg["kinds"][i]), **extra})
             out.append(read_samples(fn))
     return out
 
@@ -167,7 +186,7 @@ def run(tier, seed):
                "of the same sampler (byte-identical arrays), sampler objects unchanged, earlier files untouched, objects re-usable; non-trivial = >= 2 chains "
                "with per-chain arguments")
     # every layout of (initial model, kwargs) in {none, shared, per chain} x {none, shared, per chain, one dict repeated} with >= 2 chains, then random ones
-    ns = [2, 3, 2, 3, 4, 2, 3, 2, 3, 2, 3, 2, 1, 6] if not thorough else [2, 3, 2, 3, 4, 2, 3, 2, 3, 2, 3, 2, 1, 2, 3, 4, 5, 6, 8, 12, 16, 2, 3, 4, 32, 64, 128]
+    ns = [2, 3, 2, 3, 4, 2, 3, 2, 3, 2, 3, 2, 3, 2, 1, 6] if not thorough else [2, 3, 2, 3, 4, 2, 3, 2, 3, 2, 3, 2, 3, 2, 1, 2, 3, 4, 5, 6, 8, 12, 16, 2, 3, 4, 32, 64, 128]
     reqs, metas = [], []
     with scratch() as tmp:
         for ci, n in enumerate(ns):
@@ -175,7 +194,7 @@ def run(tier, seed):
             sub = os.path.join(tmp, f"c{ci}")
             os.makedirs(sub)
             status, res = supervised(job, (cfg, sub), timeout=120 if n <= 16 else 300, tmpdir=tmp)
-            stim = {k: cfg[k] for k in ("n", "kinds", "init_mode", "kw_mode", "P", "thin", "pre_run")}
+            stim = {k: cfg[k] for k in ("n", "kinds", "init_mode", "kw_mode", "shared_mass", "P", "thin", "pre_run")}
             st.case(dict(stim, seeds=cfg["seeds"]), nontrivial=(n >= 2 and (cfg["init_mode"] == "list" or cfg["kw_mode"] == "list")),
                     sample=stim if len(st.samples) < 3 else None)
             st.count(f"n={'1' if n == 1 else '2-6' if n <= 6 else '>6'}")
